@@ -57,6 +57,9 @@
 #ifndef VX_SPARSE_SHAPE
 #define VX_SPARSE_SHAPE 1 // 1: no callback of its own; 2: only enter, update and exit
 #endif
+#ifndef VX_TFORM
+#define VX_TFORM 0        // 1: every call that has a type-parameterised overload (changeTo<T>(), succeed<T>(), plan.change<A, B>(), isActive<T>() ...) uses it; 2: plans use the half form change<A>(id)
+#endif
 #ifndef VX_BARE
 #define VX_BARE 0
 #endif
@@ -396,6 +399,77 @@ template <typename C> inline const void* ctx_addr_of(C& c) {
 // control flavour tags
 struct TagGuard {}; struct TagPlan {}; struct TagFull {}; struct TagConst {};
 
+// --------------------------------------------------------------------------- type-parameterised API forms (VX_TFORM)
+template <int K> struct StateAt { using type = St<K>; };
+#if VX_BARE
+template <> struct StateAt<VX_N - 1> { using type = Bare; };
+#endif
+// calls Fn::go<T>(args...) with T = the id-th declared state
+template <typename Fn, typename... A> inline void tdispatch(int id, A&... a) {
+	switch (id) {
+	case 0: Fn::template go<typename StateAt<0>::type>(a...); break;
+#if VX_N > 1
+	case 1: Fn::template go<typename StateAt<1>::type>(a...); break;
+#endif
+#if VX_N > 2
+	case 2: Fn::template go<typename StateAt<2>::type>(a...); break;
+#endif
+#if VX_N > 3
+	case 3: Fn::template go<typename StateAt<3>::type>(a...); break;
+#endif
+#if VX_N > 4
+	case 4: Fn::template go<typename StateAt<4>::type>(a...); break;
+#endif
+#if VX_N > 5
+	case 5: Fn::template go<typename StateAt<5>::type>(a...); break;
+#endif
+#if VX_N > 6
+	case 6: Fn::template go<typename StateAt<6>::type>(a...); break;
+#endif
+#if VX_N > 7
+	case 7: Fn::template go<typename StateAt<7>::type>(a...); break;
+#endif
+	default: die("tdispatch: id %d out of range", id);
+	}
+}
+struct TF_Change { template <typename T, typename C> static void go(C& c) { c.template changeTo<T>(); } };
+struct TF_Imm { template <typename T, typename C> static void go(C& c) { c.template immediateChangeTo<T>(); } };
+struct TF_IsActive { template <typename T, typename C> static void go(C& c, bool& out) { out = c.template isActive<T>(); } };
+struct TF_StateId { template <typename T, typename C> static void go(C& c, int& out) { out = c.template stateId<T>(); } };
+#if VX_PAYLOAD
+struct TF_ChangeW { template <typename T, typename C> static void go(C& c, const Payload& p) { c.template changeWith<T>(p); } };
+struct TF_ImmW { template <typename T, typename C> static void go(C& c, const Payload& p) { c.template immediateChangeWith<T>(p); } };
+#endif
+#if VX_PLANS
+struct TF_Succeed { template <typename T, typename C> static void go(C& c) { c.template succeed<T>(); } };
+struct TF_Fail { template <typename T, typename C> static void go(C& c) { c.template fail<T>(); } };
+template <typename TO> struct TF_PlanChange2 { template <typename TD, typename P> static void go(P& p, bool& ok) { ok = p.template change<TO, TD>(); } };
+struct TF_PlanChange1 { template <typename TO, typename P> static void go(P& p, int& d, bool& ok) {
+#if VX_TFORM == 2
+	ok = p.template change<TO>(static_cast<ffsm2::StateID>(d));
+#else
+	tdispatch<TF_PlanChange2<TO>>(d, p, ok);
+#endif
+} };
+#if VX_PAYLOAD
+template <typename TO> struct TF_PlanChangeW2 { template <typename TD, typename P> static void go(P& p, const Payload& pl, bool& ok) { ok = p.template changeWith<TO, TD>(pl); } };
+struct TF_PlanChangeW1 { template <typename TO, typename P> static void go(P& p, int& d, const Payload& pl, bool& ok) {
+#if VX_TFORM == 2
+	ok = p.template changeWith<TO>(static_cast<ffsm2::StateID>(d), pl);
+#else
+	tdispatch<TF_PlanChangeW2<TO>>(d, p, pl, ok);
+#endif
+} };
+#endif
+#endif
+template <typename C> inline bool is_active_of(C& c, int k) {
+#if VX_TFORM
+	bool out = false; tdispatch<TF_IsActive>(k, c, out); return out;
+#else
+	return c.isActive(static_cast<ffsm2::StateID>(k));
+#endif
+}
+
 // MSan builds: a task slot that is not part of the plan holds no live task. The next emplace() starts a new object there, so whatever
 // its payload members held before is indeterminate from then on; poisoning them lets MemorySanitizer see a constructor that
 // leaves one of them unwritten (the bytes are otherwise "initialised" by the previous occupant).
@@ -421,7 +495,7 @@ inline void obs_common(Ev& e, C& c) {
 	poison_vacant(*m);
 	e.ctl_sid = c.stateId();
 	uint8_t cm = 0, mm = 0;
-	for (int k = 0; k < N; ++k) { if (c.isActive(static_cast<ffsm2::StateID>(k))) cm |= static_cast<uint8_t>(1u << k); if (m->isActive(static_cast<ffsm2::StateID>(k))) mm |= static_cast<uint8_t>(1u << k); }
+	for (int k = 0; k < N; ++k) { if (is_active_of(c, k)) cm |= static_cast<uint8_t>(1u << k); if (is_active_of(*m, k)) mm |= static_cast<uint8_t>(1u << k); }
 	e.ctl_mask = cm; e.m_mask = mm; e.m_active = m->activeStateId();
 	if (ctx_addr_of(c) == ctx_addr_of(*m) && static_cast<const void*>(&c._()) == static_cast<const void*>(&c.context())) e.flags |= OF_CTX;
 	e.req = rd_tx(c.request());
@@ -456,10 +530,22 @@ inline void do_change(C& c, uint8_t sid, uint8_t inj, uint8_t meth, uint8_t dest
 	Inst* m = curInst();
 	const uint8_t before = m->activeStateId();
 #if VX_PAYLOAD
-	if (pv) { Payload p = mk_payload(pv); c.changeWith(static_cast<ffsm2::StateID>(dest), p); memset(&p, 0xDD, sizeof p); }
+	if (pv) { Payload p = mk_payload(pv);
+#if VX_TFORM
+		{ const Payload& cp = p; tdispatch<TF_ChangeW>(dest, c, cp); }
+#else
+		c.changeWith(static_cast<ffsm2::StateID>(dest), p);
+#endif
+		memset(&p, 0xDD, sizeof p); }
 	else
 #endif
+	{
+#if VX_TFORM
+		tdispatch<TF_Change>(dest, c);
+#else
 		c.changeTo(static_cast<ffsm2::StateID>(dest));
+#endif
+	}
 	Ev& e = G.push(); e.kind = EV_CHANGE; e.sid = sid; e.inj = inj; e.meth = meth; e.a = dest; e.b = pv;
 	e.req = rd_tx(c.request());
 	e.c = e.req.o;                                  // origin recorded by the library
@@ -469,17 +555,31 @@ template <typename C> inline void do_cancel(C& c, uint8_t sid, uint8_t inj, uint
 
 #if VX_PLANS
 template <typename C> inline void do_report(C& c, uint8_t sid, uint8_t inj, uint8_t meth, bool ok, bool withId, uint8_t id) {
+#if VX_TFORM
+	if (withId) { if (ok) tdispatch<TF_Succeed>(id, c); else tdispatch<TF_Fail>(id, c); }
+	else { if (ok) c.succeed(); else c.fail(); }
+#else
 	if (ok) { if (withId) c.succeed(static_cast<ffsm2::StateID>(id)); else c.succeed(); }
 	else    { if (withId) c.fail(static_cast<ffsm2::StateID>(id)); else c.fail(); }
+#endif
 	Ev& e = G.push(); e.kind = ok ? EV_SUCCEED : EV_FAIL; e.sid = sid; e.inj = inj; e.meth = meth; e.a = withId ? id : sid; e.b = withId;
 }
 template <typename C> inline void do_plan_append(C& c, uint8_t sid, uint8_t inj, uint8_t meth, uint8_t o, uint8_t d, uint8_t pv) {
 	auto p = c.plan(); bool ok;
+#if VX_TFORM
+	int dd = d;
+#if VX_PAYLOAD
+	if (pv) { Payload pl = mk_payload(pv); const Payload& cpl = pl; tdispatch<TF_PlanChangeW1>(o, p, dd, cpl, ok); memset(&pl, 0xDD, sizeof pl); }
+	else
+#endif
+		tdispatch<TF_PlanChange1>(o, p, dd, ok);
+#else
 #if VX_PAYLOAD
 	if (pv) { Payload pl = mk_payload(pv); ok = p.changeWith(static_cast<ffsm2::StateID>(o), static_cast<ffsm2::StateID>(d), pl); memset(&pl, 0xDD, sizeof pl); }
 	else
 #endif
 		ok = p.change(static_cast<ffsm2::StateID>(o), static_cast<ffsm2::StateID>(d));
+#endif
 	Ev& e = G.push(); e.kind = EV_PLAN_APPEND; e.sid = sid; e.inj = inj; e.meth = meth; e.a = o; e.b = d; e.c = pv; e.r = ok;
 }
 template <typename C> inline void do_plan_clear(C& c, uint8_t sid, uint8_t inj, uint8_t meth) { auto p = c.plan(); p.clear(); Ev& e = G.push(); e.kind = EV_PLAN_CLEAR; e.sid = sid; e.inj = inj; e.meth = meth; }
@@ -702,7 +802,7 @@ struct Abs {
 inline void read_abs(Inst& m, Abs& a) {
 	memset(&a, 0, sizeof a);
 	a.active = m.activeStateId();
-	for (int k = 0; k < N; ++k) if (m.isActive(static_cast<ffsm2::StateID>(k))) a.mask |= static_cast<uint8_t>(1u << k);
+	for (int k = 0; k < N; ++k) if (is_active_of(m, k)) a.mask |= static_cast<uint8_t>(1u << k);
 #if VX_MANUAL
 	a.manualActive = m.isActive() ? 1 : 0;
 #else
